@@ -806,6 +806,13 @@ class S3StorageBackend(StorageBackend):
         from .s3_consistency import with_s3_retry
 
         s3_prefix = self._get_s3_key(prefix)
+        # S3 matches Prefix as a plain string: "data" would also match the
+        # siblings "data2/..." and "database". The local backend walks only the
+        # named directory, and GC deletes from this listing, so confine the
+        # listing to the directory by terminating the prefix with "/". An empty
+        # prefix (whole bucket) or one already ending in "/" is left alone.
+        if s3_prefix and not s3_prefix.endswith("/"):
+            s3_prefix = s3_prefix + "/"
 
         def list_op() -> List[str]:
             result = []
